@@ -385,6 +385,8 @@ class Interpreter:
         )
         for tablename, nickname, obj in relevant_objs:
             self.row_history.save_row(tablename, nickname, obj._values)
+        # the re-saved rows were created by an earlier iteration
+        self.row_history.reset_locals()
 
     def execute(self):
         RowHistoryCV.set(self.row_history)
